@@ -8,7 +8,7 @@ def run(ctx):
     vlib.stage_specs(wd)
     drv = vlib.build_harness()
     # the entropy coder design: encoder machine vs F.2.2 decoder, restart / stuffing / traversal invariants
-    ctx.mc("MC_JpegSeq", "MC_JpegSeq_q.cfg" if ctx.quick else "MC_JpegSeq_t.cfg", timeout=3000)
+    ctx.mc("MC_JpegSeq", "MC_JpegSeq_q.cfg" if ctx.quick else "MC_JpegSeq_t.cfg", timeout=3000 if ctx.quick else 14400)
     # reverse direction: conformant streams from the reference encoder machine (seeded simulation)
     nsim = 400 if ctx.quick else 4000
     scn, r = vlib.gen_scenarios(wd, "JpegSeqGen", "JpegSeqGen.cfg", workers=1, simulate="num=%d" % nsim, timeout=3000,
@@ -27,7 +27,7 @@ def run(ctx):
     out = vlib.run_driver(drv, args, env=ctx.env())
     stats = dict(kv.split("=") for kv in out.strip().split()[1:] if "=" in kv)
     shards = vlib.shard_trace(trace, wd, vlib.NCPU, max_bytes=6 << 20)
-    val = vlib.validate(wd, "InteropTrace", shards, timeout=3000)
+    val = vlib.validate(wd, "InteropTrace", shards, timeout=3000 if ctx.quick else 14400)
     infra = [i for i in val["infos"] if i.startswith("INFRA")]
     if infra:
         raise vlib.Infra("reference side inconsistent (generator or specified image): " + "; ".join(infra[:3]))
